@@ -1,18 +1,26 @@
 // Command gen/c13 prints coq/Gen/C13Facts.v: the inflation module's default parameters and default genesis
 // counters and the collections.Sequence default, printed from the packages of the /repo working tree this binary
-// is linked against (constants, never verdicts).
+// is linked against (constants, never verdicts); the roll-over comparison of hooks.go (go/ast); and the x/bank
+// blocked-recipient table of the application wiring: the application of the linked tree is constructed (app.NewNibiruApp
+// through testapp, i.e. app/app_config.go + depinject as a node does) and its bank keeper is asked, for every module
+// account of the auth keeper's permission table, whether it is a blocked recipient.
 package main
 
 import (
 	"fmt"
 	"go/ast"
 	"go/token"
+	"os"
+	"sort"
 	"strings"
 
 	"github.com/NibiruChain/collections"
+	authtypes "github.com/cosmos/cosmos-sdk/x/auth/types"
+	govtypes "github.com/cosmos/cosmos-sdk/x/gov/types"
 
 	. "verifharness/genlib"
 
+	"github.com/NibiruChain/nibiru/v2/x/common/testutil/testapp"
 	inflationtypes "github.com/NibiruChain/nibiru/v2/x/inflation/types"
 )
 
@@ -45,6 +53,46 @@ func main() {
 	fmt.Printf("Definition gen_genesis_skipped : Z := %s.\n", z(fmt.Sprint(g.SkippedEpochs)))
 	fmt.Printf("Definition gen_sequence_default : Z := %s.\n", z(fmt.Sprint(collections.DefaultSequenceStart)))
 	genRollover(repo)
+	genWiring()
+}
+
+// genWiring prints the module accounts of the application (auth keeper permission table), which of them the
+// application's bank keeper refuses as recipients (BlockedAddr), and the name of the governance module account.
+func genWiring() {
+	// the application writes ./data (wasm) into the working directory and may log to stdout
+	dir, err := os.MkdirTemp("", "gen-c13-")
+	if err != nil {
+		Fatal(err)
+	}
+	defer os.RemoveAll(dir)
+	if err := os.Chdir(dir); err != nil {
+		Fatal(err)
+	}
+	stdout := os.Stdout
+	os.Stdout = os.Stderr
+	a, _ := testapp.NewNibiruTestAppAndContext()
+	os.Stdout = stdout
+	var names, blocked []string
+	for name := range a.AccountKeeper.GetModulePermissions() {
+		names = append(names, name)
+	}
+	sort.Strings(names)
+	for _, n := range names {
+		if a.BankKeeper.BlockedAddr(authtypes.NewModuleAddress(n)) {
+			blocked = append(blocked, n)
+		}
+	}
+	q := func(xs []string) string {
+		var out []string
+		for _, x := range xs {
+			out = append(out, fmt.Sprintf("%q", x))
+		}
+		return "[" + strings.Join(out, "; ") + "]%string"
+	}
+	fmt.Println("From Coq Require Import String.")
+	fmt.Printf("Definition gen_module_accounts : list string := %s.\n", q(names))
+	fmt.Printf("Definition gen_blocked : list string := %s.\n", q(blocked))
+	fmt.Printf("Definition gen_gov_account : string := %q%%string.\n", govtypes.ModuleName)
 }
 
 // genRollover prints the comparison guarding CurrentPeriod.Next in Hooks.AfterEpochEnd as a term: operator, operands,
